@@ -63,6 +63,7 @@ fn accepted_fields(b: &Bdd) -> [String; 3] {
 fn dash3() -> [String; 3] { [s("-"), s("-"), s("-")] }
 
 pub fn run(key: &str, a: &[String], out: &mut Out) {
+    out.begin(key, a);
     match key {
         "C13.text" | "C13.bytes" => {
             let data = unhex(&a[0]);
